@@ -42,7 +42,7 @@ func thisField(info *types.Info, e ast.Expr) *types.Var {
 
 type typeTables struct {
 	fields, deser, assigned, serialized, context, getters, setters map[string]bool
-	claimed                                                        map[string]bool // raw JSON keys
+	claimed                                                        map[string]bool   // raw JSON keys
 	claimedVocab                                                   map[string]string // claimed name -> vocabulary URI whose alias prefixes the comparison ("" = compared plain)
 	unknownStored, unknownEmitted                                  bool
 	problems                                                       []string
@@ -553,7 +553,6 @@ func checkC12(res *Result) {
 }
 
 func path0(p string) string { return p[strings.LastIndex(p, "/")+1:] }
-
 
 // localFuncLit: the function literal a local variable of fd was defined with (f := func…).
 func localFuncLit(info *types.Info, fd *ast.FuncDecl, id *ast.Ident) *ast.FuncLit {
